@@ -164,7 +164,8 @@ Record oracles := {
   (* json.loads(octets) ; json.dumps(v, ensure_ascii, separators=(",",":")) as code points *)
   o_loads : bytes -> res pv;
   o_dumps : pv -> res str;
-  (* zip model compress / decompress (C17 owns their inside) *)
+  (* zlib.compress(s) as DeflateZipModel.compress calls it (zlib format: 2-octet header, raw DEFLATE, Adler-32);
+     DeflateZipModel.decompress as a whole (C17 owns its inside) *)
   o_deflate : bytes -> res bytes;
   o_inflate : bytes -> res bytes;
   (* registry.check_header(headers, check_more) (C15 owns its inside) *)
